@@ -22,10 +22,10 @@ import numpy as np
 from lib import common as C
 
 LEVEL = "proof"
-STATIC = ["Geometry/Dimensionality.vo", "Geometry/DimensionalityProofs.vo", "Geometry/DimensionalityInvariance.vo", "Geometry/RankDet.vo", "Geometry/RankElim.vo", "Geometry/VoltageLattice.vo", "Geometry/InvarianceFull.vo", "Geometry/DimFromTensor.vo", "Geometry/Sublattice.vo", "Base/Cover.vo", "Base/CaseUtil.vo"]
+STATIC = ["Geometry/Dimensionality.vo", "Geometry/DimensionalityProofs.vo", "Geometry/DimensionalityInvariance.vo", "Geometry/RankDet.vo", "Geometry/RankElim.vo", "Geometry/VoltageLattice.vo", "Geometry/InvarianceFull.vo", "Geometry/DimFromTensor.vo", "Geometry/Sublattice.vo", "Geometry/Supercell.vo", "Base/Cover.vo", "Base/CaseUtil.vo"]
 G = 4096  # grid: coordinates are integer multiples of 2^-12
 PREAMBLE = ("From Coq Require Import List ZArith Bool.\nImport ListNotations.\n"
-            "From MV Require Import Geometry.Dimensionality Geometry.RankDet.\n")
+            "From MV Require Import Geometry.Dimensionality Geometry.RankDet Geometry.Supercell.\n")
 CORPUS = os.path.join(C.VERIF, "corpus", "C09")
 
 COV_Z = [1, 6, 7, 8, 14, 16, 26, 29, 47, 79, 55, 11, 17]
@@ -729,7 +729,15 @@ def run(ctx):
             continue
         if kind == "supercell" and (b["_orc"]["mismatch"] or v["_orc"]["mismatch"]):
             continue
-        terms.append((base + k, term_pair(b, b["_orc"], v, v["_orc"])))
+        t = term_pair(b, b["_orc"], v, v["_orc"])
+        if kind == "supercell":
+            # hypothesis of the supercell theorem (Geometry/Supercell.v, supercell_repeat_rankZ_nat): the repeated presentation covers the
+            # base presentation -- evaluated inside Coq on the two lists of bonded image pairs
+            rep = v["meta"]["repeats"]
+            t = "andb (%s) (cover_repeat_b %s %s %s %s %s %s %s %s)" % (t, nat(len(b["numbers"])), nat(len(v["numbers"])), pbc_lit(b["pbc"]),
+                                                                   e_lit(b["_orc"]["E"]), e_lit(v["_orc"]["E"]), nat(rep[0]), nat(rep[1]), nat(rep[2]))
+            dist["supercell_pairs_with_cover_relation_checked_in_coq"] = dist.get("supercell_pairs_with_cover_relation_checked_in_coq", 0) + 1
+        terms.append((base + k, t))
     t0 = time.time()
     coq_fail, coq_err = C.coq_case_files("C09", PREAMBLE, terms, per_file=max(8, min(250, len(terms) // (3 * C.NCPU) + 1)))
     C.log("[c09] Coq evaluation of %d terms %.1fs; failing %s errors %d" % (len(terms), time.time() - t0, coq_fail[:10], len(coq_err)))
